@@ -330,6 +330,7 @@ func ApplyCtl(w *world.World, ctl string) (*world.World, error) {
 		if w.App.UpgradeKeeper.GetDoneHeight(w.Ctx(), name) != 0 {
 			return w, nil
 		}
+		w.AsWrittenByPredecessor()
 		if err := w.App.UpgradeKeeper.ScheduleUpgrade(w.Ctx(), upgradetypes.Plan{Name: name, Height: w.Height + 1}); err != nil {
 			return nil, err
 		}
